@@ -1,7 +1,7 @@
 (* C01: the three options change the shape of the output, never what it does.
 
    (1) if_style: the conditional expression `b if t else o` and the short-circuit form
-       `not not t and [b] or o` reach the same state - for ALL sub-expressions, oracles and fuels - in the
+       `not not t and [b] or o` (`(True if t else False) and [b] or o` for an and/or condition) reach the same state - for ALL sub-expressions, oracles and fuels - in the
        evaluator of the scaffolding expressions (KSem.run);
    (2) expr_wrapper: the list display [e1, ..., en] and the chained call  (lambda: (_ := lambda __: _))()(e1)...(en)
        perform the effects of e1 ... en once each, in that order - for every n - under call-by-value evaluation. *)
@@ -15,8 +15,6 @@ Section IfStyles.
   Variable orc : nat -> bool.
   Notation Ev := (Ev orc).
 
-  Definition short_form (t b o : expr) : expr :=
-    BoolOp Or [BoolOp And [UnaryOp Not (UnaryOp Not t); EList [b]]; o].
 
   Lemma run_boolop_or f es s : run orc (S f) (MExpr (BoolOp Or es)) s = run orc f (MOr es VNone) s.
   Proof. reflexivity. Qed.
@@ -51,14 +49,34 @@ Section IfStyles.
     exists v, s1. split; [exists f; exact Et|]. destruct (truthy v); exists f; exact H.
   Qed.
 
+  (* the two ways the converter reduces the condition to a bool *)
+  Definition once_not (t : expr) : expr := UnaryOp Not (UnaryOp Not t).
+  Definition once_if (t : expr) : expr := IfExp t ctrue cfalse.
+  Definition short_form_gen (once : expr -> expr) (t b o : expr) : expr :=
+    BoolOp Or [BoolOp And [once t; EList [b]]; o].
+
+  Lemma once_not_ok t s vt s1 : Ev (MExpr t) s (vt, s1) -> Ev (MExpr (once_not t)) s (VBool (truthy vt), s1).
+  Proof.
+    intros Ht. pose proof (Ev_not orc _ _ _ _ (Ev_not orc _ _ _ _ Ht)) as Hnn.
+    cbn [truthy] in Hnn. rewrite negb_involutive in Hnn. exact Hnn.
+  Qed.
+  Lemma once_if_ok t s vt s1 : Ev (MExpr t) s (vt, s1) -> Ev (MExpr (once_if t)) s (VBool (truthy vt), s1).
+  Proof.
+    intros Ht. unfold once_if. destruct (truthy vt) eqn:Tv.
+    - eapply Ev_if_true; [exact Ht|exact Tv|apply Ev_true].
+    - eapply Ev_if_false; [exact Ht|exact Tv|apply Ev_false].
+  Qed.
+
   (* THEOREM: whatever the condition and the branches are, the short-circuit form reaches the state the conditional
      expression reaches (the condition is evaluated once, exactly one branch runs) *)
-  Theorem if_styles_agree : forall t b o s v s',
-    Ev (MExpr (IfExp t b o)) s (v, s') -> exists v', Ev (MExpr (short_form t b o)) s (v', s').
+  Theorem if_styles_agree_gen : forall once,
+    (forall t s vt s1, Ev (MExpr t) s (vt, s1) -> Ev (MExpr (once t)) s (VBool (truthy vt), s1)) ->
+    forall t b o s v s',
+    Ev (MExpr (IfExp t b o)) s (v, s') -> exists v', Ev (MExpr (short_form_gen once t b o)) s (v', s').
   Proof.
-    intros t b o s v s' H. destruct (Ev_ifexp_inv _ _ _ _ _ H) as [vt [s1 [Ht Hbr]]].
-    pose proof (Ev_not orc _ _ _ _ (Ev_not orc _ _ _ _ Ht)) as Hnn. cbn [truthy] in Hnn. rewrite negb_involutive in Hnn.
-    unfold short_form. destruct (truthy vt) eqn:Tv.
+    intros once Honce t b o s v s' H. destruct (Ev_ifexp_inv _ _ _ _ _ H) as [vt [s1 [Ht Hbr]]].
+    pose proof (Honce _ _ _ _ Ht) as Hnn.
+    unfold short_form_gen. destruct (truthy vt) eqn:Tv.
     - (* the body runs; the one-element list is true whatever the body returns *)
       assert (Hb1 : Ev (MExpr (EList [b])) s1 (VList 1, s')).
       { apply (Ev_elist orc [b] s1 s'). eapply ES_cons; [exact Hbr|apply ES_nil]. }
@@ -68,6 +86,13 @@ Section IfStyles.
       exists v. eapply Ev_or_false; [apply Ev_and_false; [exact Hnn|reflexivity]|reflexivity|exact Hbr].
   Qed.
 
+  Theorem if_styles_agree : forall t b o s v s',
+    Ev (MExpr (IfExp t b o)) s (v, s') ->
+    (exists v', Ev (MExpr (short_form_gen once_not t b o)) s (v', s')) /\
+    (exists v', Ev (MExpr (short_form_gen once_if t b o)) s (v', s')).
+  Proof.
+    intros. split; eapply if_styles_agree_gen; eauto using once_not_ok, once_if_ok.
+  Qed.
 End IfStyles.
 
 (* ---------- expr_wrapper ---------- *)
